@@ -195,8 +195,137 @@ fn to_arr<T: std::fmt::Debug, const N: usize>(v: Vec<T>) -> [T; N] {
     v.try_into().expect("table count")
 }
 
-/// The multi-table prover node.
+/// Running sums and helper columns of one lookup side group, computed by the simulator
+/// (needed by the Byzantine prover that shifts a running sum: the library's data is not writable).
+fn group_columns(sys: &System, sides: &[&Side], beta: F, gamma: F, degree: usize) -> (Vec<PolynomialValues<F>>, Vec<F>) {
+    use plonky2::field::types::Field;
+    let t = sides[0].table;
+    let n = sys.tables[t].len();
+    let terms: Vec<Vec<F>> = sides
+        .iter()
+        .map(|s| {
+            let comb: Vec<F> = (0..n)
+                .map(|r| {
+                    let mut acc = F::ZERO;
+                    for c in s.cols.iter().rev() {
+                        acc = acc * beta + fe(sys.tables[t][r][*c]);
+                    }
+                    acc + gamma
+                })
+                .collect();
+            let inv = F::batch_multiplicative_inverse(&comb);
+            (0..n).map(|r| inv[r] * fe(s.filter.map_or(1, |f| sys.tables[t][r][f]))).collect()
+        })
+        .collect();
+    let helpers: Vec<Vec<F>> = terms.chunks(degree - 1).map(|ch| (0..n).map(|r| ch.iter().map(|c| c[r]).sum::<F>()).collect()).collect();
+    let mut z = vec![F::ZERO; n];
+    for r in (0..n).rev() {
+        let x: F = helpers.iter().map(|h| h[r]).sum();
+        z[r] = if r == n - 1 { x } else { z[r + 1] + x };
+    }
+    let hcols = if sides.len() > 1 { helpers.into_iter().map(PolynomialValues::new).collect() } else { vec![] };
+    (hcols, z)
+}
+
+/// The multi-table prover node. `shift_looking`: Byzantine strategy — the running sum of the first
+/// looking group is shifted by a constant so that the cross-table totals match although the multisets differ.
+pub fn multi_prove_with<const N: usize>(sys: &System, cfg: &StarkConfig, own_ctl_data: bool, shift_looking: bool) -> Result<MultiProof, String> {
+    use starky::cross_table_lookup::{CtlData, CtlZData};
+    let r = guarded(|| {
+        let starks: Vec<S> = (0..N).map(|t| S::new(sys.def(t))).collect();
+        let traces: Vec<Vec<PolynomialValues<F>>> = sys.tables.iter().map(|t| rows_to_polys(t, COLS)).collect();
+        let commitments: Vec<PolynomialBatch<F, C, D>> = traces
+            .iter()
+            .map(|t| PolynomialBatch::<F, C, D>::from_values(t.clone(), cfg.fri_config.rate_bits, false, cfg.fri_config.cap_height, &mut TimingTree::default(), None))
+            .collect();
+        let mut challenger = Challenger::<F, <C as GenericConfig<D>>::Hasher>::new();
+        for c in &commitments {
+            challenger.observe_cap(&c.merkle_tree.cap);
+        }
+        let ctl_challenges = get_grand_product_challenge_set(&mut challenger, cfg.num_challenges);
+        // column descriptions must outlive the data
+        let store: Vec<(Vec<Vec<Column<F>>>, Vec<Column<F>>)> = sys
+            .ctls
+            .iter()
+            .map(|c| (c.looking.iter().map(|s| s.cols.iter().map(|x| Column::single(*x)).collect()).collect(), c.looked.cols.iter().map(|x| Column::single(*x)).collect()))
+            .collect();
+        let filt = |s: &Side| match s.filter {
+            Some(f) => Filter::new_simple(Column::single(f)),
+            None => Filter::default(),
+        };
+        let mut data: Vec<CtlData<F>> = (0..N).map(|_| CtlData::default()).collect();
+        for (ci, c) in sys.ctls.iter().enumerate() {
+            for ch in &ctl_challenges.challenges {
+                // consecutive groups of looking sides by table
+                let mut groups: Vec<Vec<usize>> = Vec::new();
+                for (i, s) in c.looking.iter().enumerate() {
+                    match groups.last_mut() {
+                        Some(g) if c.looking[g[0]].table == s.table => g.push(i),
+                        _ => groups.push(vec![i]),
+                    }
+                }
+                let mut computed: Vec<(usize, Vec<usize>, Vec<PolynomialValues<F>>, Vec<F>)> = groups
+                    .iter()
+                    .map(|g| {
+                        let sides: Vec<&Side> = g.iter().map(|i| &c.looking[*i]).collect();
+                        let (h, z) = group_columns(sys, &sides, ch.beta, ch.gamma, sys.degree);
+                        (sides[0].table, g.clone(), h, z)
+                    })
+                    .collect();
+                let (_, looked_z) = group_columns(sys, &[&c.looked], ch.beta, ch.gamma, sys.degree);
+                if shift_looking {
+                    use plonky2::field::types::Field;
+                    let total: F = computed.iter().map(|x| x.3[0]).sum();
+                    let delta = looked_z[0] - total;
+                    // prefer a group with helper columns (a repeated looking table)
+                    let k = computed.iter().position(|x| !x.2.is_empty()).unwrap_or(0);
+                    for v in computed[k].3.iter_mut() {
+                        *v += delta;
+                    }
+                }
+                for (t, g, h, z) in computed {
+                    data[t].zs_columns.push(CtlZData::new(h, PolynomialValues::new(z), *ch, g.iter().map(|i| &store[ci].0[*i][..]).collect(), g.iter().map(|i| filt(&c.looking[*i])).collect()));
+                }
+                data[c.looked.table].zs_columns.push(CtlZData::new(vec![], PolynomialValues::new(looked_z), *ch, vec![&store[ci].1[..]], vec![filt(&c.looked)]));
+            }
+        }
+        let ctls: Vec<CrossTableLookup<F>> = sys.ctls.iter().map(|c| CrossTableLookup::new(c.looking.iter().map(twc).collect(), twc(&c.looked))).collect();
+        let lib_data;
+        let used: &[CtlData<F>] = if own_ctl_data {
+            &data
+        } else {
+            let mut ch2 = Challenger::<F, <C as GenericConfig<D>>::Hasher>::new();
+            for c in &commitments {
+                ch2.observe_cap(&c.merkle_tree.cap);
+            }
+            let traces_arr: [Vec<PolynomialValues<F>>; N] = to_arr(traces.clone());
+            let (_c, d) = get_ctl_data::<F, C, D, N>(cfg, &traces_arr, &ctls, &mut ch2, sys.degree);
+            lib_data = d;
+            &lib_data
+        };
+        let mut proofs = Vec::new();
+        for t in 0..N {
+            let mut ch = challenger.clone();
+            cfg.observe(&mut ch);
+            let pis = vec![fe(7 + t as u64)];
+            let p = prove_with_commitment(&starks[t], cfg, &traces[t], &commitments[t], Some(&used[t]), Some(&ctl_challenges), &mut ch, &pis, None, None, &mut TimingTree::default())
+                .map_err(|e| format!("table {t}: {e}"))?;
+            proofs.push(p);
+        }
+        Ok::<MultiProof, String>(MultiProof { proofs })
+    });
+    match r {
+        Ok(x) => x,
+        Err(e) => Err(format!("panic: {e}")),
+    }
+}
+
 pub fn multi_prove<const N: usize>(sys: &System, cfg: &StarkConfig) -> Result<MultiProof, String> {
+    multi_prove_with::<N>(sys, cfg, false, false)
+}
+
+#[allow(dead_code)]
+fn multi_prove_old<const N: usize>(sys: &System, cfg: &StarkConfig) -> Result<MultiProof, String> {
     let r = guarded(|| {
         let starks: Vec<S> = (0..N).map(|t| S::new(sys.def(t))).collect();
         let traces: Vec<Vec<PolynomialValues<F>>> = sys.tables.iter().map(|t| rows_to_polys(t, COLS)).collect();
@@ -325,6 +454,17 @@ fn exec_n<const N: usize>(case: &Case, rep: &mut Report) {
     if !ok {
         return viol(rep, case, None, "honest", "honest_multi_table_system_not_accepted", why);
     }
+    // the simulator's own running sums give the same verdict as the library's (calibration of the Byzantine prover)
+    if case.only.is_none() {
+        case.sched.arm();
+        rep.case(base_sig ^ hash_str("own_ctl_data"), true);
+        match multi_prove_with::<N>(sys, &cfg, true, false) {
+            Ok(mp) if multi_verify::<N>(sys, &cfg, &mp).is_ok() => rep.probe("c10.ctl.own_running_sums_accepted"),
+            _ => {
+                rep.probe("c10.ctl.own_running_sums_rejected(strategy disabled)");
+            }
+        }
+    }
     let mut r = Rng::new(case.fault_seed);
     let mut plan: Vec<(usize, usize, usize, u64, String)> = Vec::new();
     if let Some((t, row, col, v)) = case.only {
@@ -364,6 +504,17 @@ fn exec_n<const N: usize>(case: &Case, rep: &mut Report) {
         rep.fault(&format!("ctl.{role}"));
         rep.case(base_sig ^ hash_value(&json!([t, row, col, nv])), violated.is_some());
         let (ok, why) = run::<N>(&s2, &cfg, &case.sched);
+        if violated.is_some() {
+            // Byzantine prover: honest helper columns for the faulted traces, a looking running sum shifted so that the totals match
+            case.sched.arm();
+            rep.fault(&format!("ctl.{role}+shifted_running_sum"));
+            rep.case(base_sig ^ hash_value(&json!(["shift", t, row, col, nv])), true);
+            if let Ok(mp) = multi_prove_with::<N>(&s2, &cfg, true, true) {
+                if multi_verify::<N>(&s2, &cfg, &mp).is_ok() {
+                    viol(rep, case, Some((*t, *row, *col, *nv)), role, "accepted_cross_table_lookup_with_shifted_running_sum", format!("table {t} row {row} col {col}: {}", violated.clone().unwrap()));
+                }
+            }
+        }
         if violated.is_some() && ok {
             viol(rep, case, Some((*t, *row, *col, *nv)), role, "accepted_cross_table_lookup_with_unequal_multisets", format!("table {t} row {row} col {col}: {}", violated.unwrap()));
         } else if violated.is_none() && !ok {
